@@ -8,7 +8,12 @@ Over observable records only (`clock` = the last value the loop read from the cl
 * at every kernel wait, for every registered timer: the requested timeout does not reach beyond
   its expiry (nanosecond waits: `clock + to ≤ expiry` or `to = 0`; millisecond waits: rounded up to
   the next millisecond, capped at 24 h), or the wait is unbounded and the kernel timer is armed at a
-  value `≤ expiry` (or at 1 ns).
+  value `≤ expiry` (or at 1 ns);
+* after a kernel wait returned (with events or `EINTR`) the loop reads the clock again before it uses
+  it (`fresh`): a timer handler is only entered against a clock value read after the last wait
+  returned, and a finite non-zero wait timeout (which is computed from the clock) is only requested
+  with such a value while a timer is registered.  A wait that failed with `ENOSYS` did not sleep and
+  leaves `fresh` unchanged.
 -/
 namespace Ivy.Mon.C04
 open Ivy.L1
@@ -19,6 +24,8 @@ structure M where
   clock : TS := ⟨0, 0⟩
   pending : Option (Nat × TS) := none
   dead : Bool := false
+  /-- the clock value was read after the last kernel wait returned -/
+  fresh : Bool := false
 
 def ns (t : TS) : Int := t.sec * 1000000000 + t.nsec
 
@@ -32,12 +39,22 @@ def bounded (clock : TS) (to : Timeout) (kt : Option (Option TS)) (exp : TS) : B
     | some (some v) => ns v ≤ ns exp || (v.sec == 0 && v.nsec == 1)
     | _ => false
 
+/-- a finite non-zero timeout: it was computed from the loop's clock -/
+def finitePos : Timeout → Bool
+  | .ns v => decide (v > 0)
+  | .ms v => decide (v > 0)
+  | .inf => false
+
 def step (m : M) (e : Ev) : Except String M :=
   if m.dead then .ok m else
   match e with
   | .out (.fatal _) => .ok { m with dead := true }
   | .out (.fault _) => .ok { m with dead := true }
-  | .inp (.time t) => .ok { m with clock := t, pending := none }
+  | .inp (.time t) => .ok { m with clock := t, pending := none, fresh := true }
+  | .inp (.wret r) =>
+    match r with
+    | .enosys => .ok { m with pending := none }
+    | _ => .ok { m with pending := none, fresh := false }
   | .inp (.api (.timerRegister t ex)) => .ok { m with pending := some (t, ex) }
   | .out (.ret _) =>
     match m.pending with
@@ -49,11 +66,15 @@ def step (m : M) (e : Ev) : Except String M :=
     | none => .error s!"timer t{t} handler entered although the timer is not registered (fired twice or after unregister)"
     | some (_, ex) =>
       if ex.gt m.clock then .error s!"timer t{t} fired early: expiry {ns ex} ns, loop clock {ns m.clock} ns"
+      else if !m.fresh then .error s!"timer t{t} fired against a clock value read before the last kernel wait"
       else .ok { m with reg := m.reg.filter (·.1 != t) }
   | .out (.wait _ to _ kt _) =>
     match m.reg.find? (fun p => !bounded m.clock to kt p.2) with
     | some (t, ex) => .error s!"wait may oversleep timer t{t} (expiry {ns ex} ns, loop clock {ns m.clock} ns)"
-    | none => .ok m
+    | none =>
+      if !m.fresh && !m.reg.isEmpty && finitePos to then
+        .error "wait timeout computed from a clock value read before the last kernel wait returned"
+      else .ok m
   | _ => .ok { m with pending := none }
 
 def verdict (evs : List Ev) : Option String :=
